@@ -132,13 +132,17 @@ Definition update_one (f : name -> Z -> Z -> res) (r : repl) (i : nat) (l : list
       end
   end.
 
-Inductive call := CAll (r : repl) | COne (i : nat) (r : repl).
+(* CQuery: a read-only question about the configuration between two updates (get_seed_values(id),
+   get_seeds()[id]); [listed] says whether the stream has a seed list at that moment: answered, or refused
+   with KeyError -- either way nothing changes *)
+Inductive call := CAll (r : repl) | COne (i : nat) (r : repl) | CQuery (listed : bool).
 
 Definition do_call (f : name -> Z -> Z -> res) (c : call) (l : list entry)
   : list entry * option exn :=
   match c with
   | CAll r => update_seeds f r l
   | COne i r => update_one f r i l
+  | CQuery listed => (l, if listed then None else Some EKeyError)
   end.
 
 (* ---------- configurations used by the correspondence ---------- *)
